@@ -114,6 +114,38 @@ def entriesOf (n : Nat) (b : Bytes) : List Entry := entriesK n b
 def readValidate (n : Nat) (marker : Nat) (checkPlus : Bool) (mode : Mode) (file : Bytes) (k : Nat) : Option Nat :=
   reported n marker checkPlus 0 ((readAll (Fmt.kLine n) true mode file k).map (entriesOf n))
 
+/-! ### a truncated last record (fix "Incomplete entry at end of file")
+
+At the end of the file the reader looks at what is left after the last complete entry
+(`chunk[buff.size:]` of the final chunk, or the pending bytes when no complete entry was found): anything but
+line ends is a truncated entry, reported at the line where it starts = the number of lines delivered.
+Before the repair these bytes were dropped silently and a table without the last record was returned. -/
+
+def isBlank (b : Bytes) : Bool := b.all (fun x => x == NL || x == CR)
+
+/-- the bytes of the terminated file that the chunked reader never delivered -/
+def leftoverOf (n : Nat) (mode : Mode) (file : Bytes) (k : Nat) : Bytes :=
+  (norm file).drop (readAll (Fmt.kLine n) true mode file k).flatten.length
+
+/-- chunked reading with the end-of-file test -/
+def readValidateT (n : Nat) (marker : Nat) (checkPlus : Bool) (mode : Mode) (file : Bytes) (k : Nat) : Option Nat :=
+  match readValidate n marker checkPlus mode file k with
+  | some l => some l
+  | none =>
+    if isBlank (leftoverOf n mode file k) then none
+    else some (countNL (readAll (Fmt.kLine n) true mode file k).flatten)
+
+/-- `f.read()`: the whole file is one buffer; `Res.err` = "no complete entry" (`IncompleteEntryException`) -/
+def wholeValidateT (n : Nat) (marker : Nat) (checkPlus : Bool) (file : Bytes) : Res (Option Nat) :=
+  let c := norm file
+  if c.isEmpty then .ok none
+  else if countNL c < n then .err
+  else
+    let d := c.take ((Fmt.kLine n).cutLen c)
+    match validateChunk n marker checkPlus (entriesOf n d) with
+    | some l => .ok (some l)
+    | none => if isBlank (c.drop d.length) then .ok none else .ok (some (countNL d))
+
 /-! ### end to end for delimited formats: the C01 reader cuts the file, every chunk's rows are parsed -/
 
 /-- cut `l` into consecutive pieces of the given sizes -/
